@@ -17,7 +17,7 @@ MANIFEST = {
              'members in input order; the [1:] trick is proved correct from sortedness), C13_pathB_refines (np.unique(return_inverse) + one mask per key = the same), C13_paths_agree, C13_pathA_partition, '
              'C13_pathA_is_S_up_to_group_order, C13_paths_agree_int (hypotheses satisfiable), C13_fallback_partition + C13_fallback_exact_when_repr_separates (string-representation branch), C13_apply_one_per_group, '
              'C13_code_shape (sort kind, roll amount, [1:] and the path-choice expression REGENERATED from frame.py/util.py agree with the model), '
-             'C13_windows_exact (the loop of axis_window_items with index arithmetic REGENERATED from container_util.py = the anchor enumeration, every parameter tuple), C13_windows_terminate, '
+             'C13_window_keywords_forwarded (every keyword of Frame/Series._axis_window reaches _axis_window_items and axis_window_items, lists REGENERATED), C13_windows_exact (the loop of axis_window_items with index arithmetic REGENERATED from container_util.py = the anchor enumeration, every parameter tuple), C13_windows_terminate, '
              'C13_windows_sound / C13_window_inside / C13_windows_complete (each yielded window is the contiguous slice of its anchor with the stated size; every anchor inside the container with an existing label is yielded). '
              'Correspondence: API-level runs of Series/Frame iter_group_items, iter_group_labels_items, iter_group(...).apply, iter_window_items over all block layouts, both axes, single/multiple keys, '
              'int/str/bool/float/object/mixed keys, hierarchical indices, exhaustive window parameter grid; kernel-level runs of util.array_to_groups_and_locations; malformed inputs.'),
@@ -25,7 +25,7 @@ MANIFEST = {
              'distinct values with positions, both under val_leb; np.unique raises TypeError on unorderable object arrays and on 2-D object arrays with axis=; str(x) of ints/strs/bools/None; l[a:b] for a,b>=0 = firstn/skipn. '
              'Modelled, not proved about the code: that frame_sorted/_extract take whole rows (C03/C04/C12 territory; observed through the complete group contents), dtype resolution of the key array (a rule on dtype classes). '
              'The order hypotheses of the path theorems are proved satisfiable for Z only (val_leb on the generated key classes is validated by the correspondence, not proved). '
-             'Known finding (model follows the code, spec does not): C13-str-fallback. Repaired after this check derived them (regression cases kept): one-row list key on axis 1 (cf0ec12), string-branch labels on axis 1 (f8cd3fd), Frame.iter_group_labels over several depths (b935330). NaN keys are outside the generated domain '
+             'Known findings (model follows the code, spec does not): C13-str-fallback, C13-framego-axis1-sort-path, C13-window-array-axis1-empty. Repaired after this check derived them (regression cases kept): one-row list key on axis 1 (cf0ec12), string-branch labels on axis 1 (f8cd3fd), Frame.iter_group_labels over several depths (b935330). NaN keys are outside the generated domain '
              '(the two paths visibly disagree on them: one group per NaN on the sort path, one NaN group on the unique path).'),
     'technique': 'refinement of two implementation models to one specification + partition laws; loop = closed-form enumeration with regenerated arithmetic; differential correspondence by vm_compute',
 }
@@ -39,7 +39,7 @@ IMPORTS_SPEC_ONLY = 'Require Import SF.Prelude SF.PySlice SF.Value SF.Group SF.G
 RULE = ('api strata: public iter_group_items / iter_group_labels_items / iter_group*.apply / iter_window_items calls on generated Series and Frames -- exhaustive value sequences of length <= 4 over 3 values for Series, '
         'every block layout of frames with <= 3 columns (thorough: <= 4), both axes, element/list/slice keys of 1-3 positions, key dtypes int/str/bool/float/object(orderable, mixed, colliding str()), flat and hierarchical axes, '
         'one group / all-distinct / duplicated keys; windows: the grid n<=6, size<=4, step<=3, shifts in [-3,3], increment in [-1,1], window_sized on/off (thorough: complete, quick: boundary + random sample) on Series (Series and array windows), plus Frames on both axes; longer axes (17-60 positions, 2-4 interleaved keys of dtype int64/float64/bool/str/int16/uint8, both axes) on the sort path so that an unstable sort shows as a changed order inside a group; a second window grid n<=9, size<=3, start_shift down to -(n+2), label_shift up to n+2 (thorough: complete; quick: every run samples the anchors lying wholly left of the container that still have a label); '
-        'kernel stratum: util.array_to_groups_and_locations called directly; malformed stream: absent key, invalid axis, size<=0, step<0. '
+        'the values-only forms list(iter_window(...)) / list(iter_window_array(...)) on Series and on Frames of both axes (sequence of windows = map snd of the items), weighted to label_shift != 0; FrameGO receivers whose first yielded group is grown in place during the iteration; kernel stratum: util.array_to_groups_and_locations called directly; malformed stream: absent key, invalid axis, size<=0, step<0. '
         'A group case is non-trivial when it has >= 2 groups and some group with >= 2 members; a window case when at least one window is yielded and at least one anchor is rejected or clipped; '
         'distinct = distinct (call, input, parameters).')
 ASSUMPTIONS = [
@@ -338,11 +338,40 @@ def _gen_group(repo):
     return lines
 
 
+_SE = 'static_frame/core/series.py'
+
+
+def _gen_forwarding(repo):
+    """keyword pass-through of the window generators: (sorted parameter names, sorted names forwarded as k=k)"""
+    lines = []
+    for path, cls in ((_FR, 'Frame'), (_SE, 'Series')):
+        with open(os.path.join(repo, path)) as f:
+            tree = ast.parse(f.read())
+        for meth, callee in (('_axis_window', 'self._axis_window_items'), ('_axis_window_items', 'axis_window_items')):
+            fn = _method(tree, cls, meth)
+            _need(not fn.args.args[1:] and not fn.args.vararg and not fn.args.kwarg, f'{cls}.{meth}: keyword-only parameters expected')
+            params = sorted(a.arg for a in fn.args.kwonlyargs)
+            calls = [n for n in ast.walk(fn) if isinstance(n, ast.Call) and ast.unparse(n.func) == callee]
+            _need(len(calls) == 1 and not calls[0].args, f'{cls}.{meth}: exactly one call of {callee} with keywords only')
+            kws = calls[0].keywords
+            _need(all(k.arg is not None for k in kws), f'{cls}.{meth}: no ** forwarding expected')
+            if callee == 'axis_window_items':
+                src = [k for k in kws if k.arg == 'source']
+                _need(len(src) == 1 and ast.unparse(src[0].value) == 'self', f'{cls}.{meth}: source=self')
+                kws = [k for k in kws if k.arg != 'source']
+            forwarded = sorted(k.arg for k in kws if isinstance(k.value, ast.Name) and k.value.id == k.arg)
+            extra = [k.arg for k in kws if not (isinstance(k.value, ast.Name) and k.value.id == k.arg)]
+            forwarded = sorted(forwarded + [f'{a}:=other' for a in extra])     # a keyword bound to something else is not a pass-through
+            lines.append(f'Definition fwd_{cls.lower()}{meth} : list string * list string := '
+                         f'({lit.lst([lit.s(x) for x in params])}, {lit.lst([lit.s(x) for x in forwarded])}).')
+    return lines
+
+
 def generate(repo):
     head = ['(* GENERATED on every run by tools/sfv/props/c13.py generate() from',
             f'   {_CU}:axis_window_items, {_FR}:Frame._axis_group_sort_items/_axis_group_loc_items/sort_values, {_UT} -- do not edit *)',
             'Require Import SF.Prelude.', 'Local Open Scope string_scope.', 'Local Open Scope Z_scope.', '']
-    return {'Gen/Gen_c13.v': '\n'.join(head + _gen_window(repo) + [''] + _gen_group(repo)) + '\n'}
+    return {'Gen/Gen_c13.v': '\n'.join(head + _gen_window(repo) + [''] + _gen_group(repo) + [''] + _gen_forwarding(repo)) + '\n'}
 
 
 # --------------------------------------------------------------------------- literals / observation
@@ -549,8 +578,8 @@ def make_frame(ctx, family, nrows, ncols, mode=None, hier_index=False, hier_colu
             'index': index, 'columns': columns, 'layouts': layouts, 'mode': mode, 'hier_index': hier_index, 'hier_columns': hier_columns}
 
 
-def build(spec, layout):
-    return zoo.frame_from_columns(spec['arrays'], layout, index=spec['index'], columns=spec['columns'])
+def build(spec, layout, cls=None):
+    return zoo.frame_from_columns(spec['arrays'], layout, index=spec['index'], columns=spec['columns'], cls=cls)
 
 
 def pick_layouts(ctx, spec, quick_n):
@@ -566,9 +595,12 @@ def spec_desc(spec, layout):
 
 
 # --------------------------------------------------------------------------- group strata
-def frame_group_case(ctx, spec, layout, axis, keykind, positions, stratum, apply_=False):
-    '''one call of Frame.iter_group_items (or iter_group(...).apply) -> Case'''
-    f = build(spec, layout)
+def frame_group_case(ctx, spec, layout, axis, keykind, positions, stratum, apply_=False, go=False):
+    '''one call of Frame.iter_group_items (or iter_group(...).apply) -> Case.
+    go: the receiver is a FrameGO and the first yielded group, when it is itself a FrameGO, is GROWN in place (a column is
+    added) while the iteration is suspended: the remaining groups must still be the original rows with the original columns'''
+    import static_frame as sf
+    f = build(spec, layout, cls=sf.FrameGO if go else None)
     labels_key_axis = spec['col_labels'] if axis == 0 else spec['index_labels']
     if keykind == 'element':
         key = labels_key_axis[positions[0]]
@@ -596,10 +628,12 @@ def frame_group_case(ctx, spec, layout, axis, keykind, positions, stratum, apply
     two_d = multi
     if not sort_path:
         tags = fallback_tags(tags, obj, two_d, keys)
+    elif go and axis == 1 and len(rows) >= 1:
+        tags = dict(tags, finding='C13-framego-axis1-sort-path')
     ctx.count(f'{stratum}:axis{axis}', f'{stratum}:{keykind}', f'{stratum}:path={"sort" if sort_path else ("unique-str" if obj and (two_d or not orderable(keys)) else "unique")}',
               f'{stratum}:layout-blocks={len(layout)}', f'{stratum}:rows={len(rows)}', f'{stratum}:hier={int(not (cdepth1 and idepth1))}')
     desc = dict(spec_desc(spec, layout), axis=axis, key=repr(key))
-    mcall = (f'(M_frame_group_api {lit.z(axis)} (Some {keyspec_lit(ks)}) {lit.b(multi)} {lit.b(cdepth1)} {lit.b(idepth1)} {lit.b(obj)} '
+    mcall = (f'(M_frame_group_api {lit.z(axis)} (Some {keyspec_lit(ks)}) {lit.b(multi)} {lit.b(cdepth1)} {lit.b(idepth1)} {lit.b(obj)} {lit.b(go)} '
              f'{rows_lit(rows)})')
     scall = f'(S_frame_group_api {lit.z(axis)} (Some {keyspec_lit(ks)}) {rows_lit(rows)})'
     other = (lambda g: lit.labels(g.columns)) if axis == 0 else (lambda g: lit.labels(g.index))
@@ -611,11 +645,18 @@ def frame_group_case(ctx, spec, layout, axis, keykind, positions, stratum, apply
                 if other(g) != want_other:
                     raise AssertionError('labels of the other axis changed')
                 out.append((key_py(k), axis_rows(g, axis)))
+                if go and len(out) == 1 and isinstance(g, sf.FrameGO):
+                    g['__grown__'] = 0
+            if go and (lit.labels(f.columns) != spec['col_labels'] or f.shape != (len(spec['index_labels']), len(spec['col_labels']))):
+                raise AssertionError('growing a group changed the receiver')
             return out
         st, out = run(observe)
-        py_fail = 'a group changed the labels of the other axis' if (st, out) == ('err', 'AssertionError') else None
+        py_fail = 'a group (or the receiver) shows labels it must not have' if (st, out) == ('err', 'AssertionError') else None
         obs = res_lit(st, out, groups_lit)
-        desc.update(call=f'f.iter_group_items({key!r}, axis={axis})', observed=brief(out, st))
+        desc.update(call=(f'f = FrameGO(...); for i, (k, g) in enumerate(f.iter_group_items({key!r}, axis={axis})): record g; if i == 0 and isinstance(g, FrameGO): g["__grown__"] = 0'
+                          if go else f'f.iter_group_items({key!r}, axis={axis})'), observed=brief(out, st))
+        if go:
+            tags = dict(tags, receiver='FrameGO')
         return Case(stratum, desc, m=f'gres_eqb {obs} {mcall}', s=f'gres_same {obs} {scall}', py_fail=py_fail, tags=tags,
                     nontrivial=nontrivial_groups(keys))
     code = {_hash_label(l): 1 << i for i, (l, _) in enumerate(rows)}
@@ -746,6 +787,20 @@ def frame_group_cases(ctx):
         keykind, positions = choose_key(ctx, npos)
         layout = ctx.rng.choice(spec['layouts'])
         yield frame_group_case(ctx, spec, layout, axis, keykind, positions, 'api:frame.iter_group.apply', apply_=True)
+
+
+def go_group_cases(ctx):
+    '''FrameGO receivers, mostly on the generic path (list/slice keys, object key column) whose groups are FrameGO'''
+    for i in range(ctx.n(24, 200)):
+        family = ctx.rng.choice(['N', 'M', 'I'])
+        spec = make_frame(ctx, family, ctx.rng.randint(2, 6), ctx.rng.randint(1, 3), mode='dup')
+        axis = 0 if i % 4 else 1
+        npos = len(spec['col_labels']) if axis == 0 else len(spec['index_labels'])
+        keykind, positions = choose_key(ctx, npos)
+        if i % 3 and keykind == 'element':
+            keykind = 'list'
+        layout = ctx.rng.choice(spec['layouts'])
+        yield frame_group_case(ctx, spec, layout, axis, keykind, positions, 'api:framego.iter_group_items[grow]', go=True)
 
 
 _LONG_DTYPES = {     # key dtype -> (values to draw keys from, dtype, identity row for axis 1 or None)
@@ -917,26 +972,64 @@ def witems_lit(items):
     return lit.lst([f'({lit.val(l)}, {rows_lit(rows)})' for l, rows in items])
 
 
-def window_case(ctx, c, axis, p, stratum, desc, as_array=False):
+def _array_window_rows(w, rows, axis, ndim):
+    '''an ndarray window of a container with pairwise distinct cells -> the rows it consists of'''
+    if ndim == 1:
+        by = {cells[0]: (l, cells) for l, cells in rows}
+        return [by[v] for v in w.tolist()]
+    by = {tuple(cells): (l, cells) for l, cells in rows}
+    items = w.tolist() if axis == 0 else w.T.tolist()
+    return [by[tuple(x)] for x in items]
+
+
+def has_empty_anchor(n, p):
+    '''does an ENUMERATED anchor select nothing?  (own arithmetic of the anchor enumeration; class of C13-window-array-axis1-empty)'''
+    if p['size'] <= 0 or p['step'] < 0:
+        return False
+    cmax = n if p['start_shift'] >= 0 else n - p['start_shift']
+    for i in range(cmax + 1):
+        left = p['start_shift'] + i * p['step']
+        size = p['size'] + i * p['size_increment']
+        if i and not (left <= cmax - 1 and size >= 0):
+            continue
+        lo, hi = max(0, left), max(0, left + size)
+        if max(0, min(hi, n) - min(lo, n)) == 0:
+            return True
+    return False
+
+
+def window_case(ctx, c, axis, p, stratum, desc, as_array=False, values_only=False):
+    '''as_array: iter_window_array* (the container must have pairwise distinct cells of one dtype);
+    values_only: iter_window / iter_window_array iterated directly (no labels): the sequence of windows'''
     rows = axis_rows(c, axis)
     kw = dict(p)
     if c.ndim == 2:
         kw['axis'] = axis
-    if as_array:    # Series with pairwise distinct values: the array window identifies its rows
-        by_value = {cells[0]: (l, cells) for l, cells in rows}
-        st, out = run(lambda: [(key_py(l), [by_value[v] for v in w.tolist()]) for l, w in c.iter_window_array_items(**kw)])
+    conv = (lambda w: _array_window_rows(w, rows, axis, c.ndim)) if as_array else (lambda w: axis_rows(w, axis))
+    if values_only:
+        it = c.iter_window_array if as_array else c.iter_window
+        st, out = run(lambda: [conv(w) for w in it(**kw)])
+        obs = res_lit(st, out, lambda o: lit.lst([rows_lit(r) for r in o]))
+        shown = [[repr(r[0]) for r in rs] for rs in out] if st == 'ok' else out
+        mk = lambda model: f'wvres_eqb (wvalues ({model} {rows_lit(rows)} {wparams_lit(p)})) {obs}'
     else:
-        st, out = run(lambda: [(key_py(l), axis_rows(w, axis)) for l, w in c.iter_window_items(**kw)])
-    obs = res_lit(st, out, witems_lit)
+        it = c.iter_window_array_items if as_array else c.iter_window_items
+        st, out = run(lambda: [(key_py(l), conv(w)) for l, w in it(**kw)])
+        obs = res_lit(st, out, witems_lit)
+        shown = [[repr(l), [repr(r[0]) for r in rs]] for l, rs in out] if st == 'ok' else out
+        mk = lambda model: f'wres_eqb ({model} {rows_lit(rows)} {wparams_lit(p)}) {obs}'
     n = len(rows)
     yielded = len(out) if st == 'ok' else 0
-    desc = dict(desc, params=p, axis=axis, observed=[[repr(l), [repr(r[0]) for r in rs]] for l, rs in out] if st == 'ok' else out)
+    tags = {'api': stratum.split(':', 1)[1], 'ndim': c.ndim, 'axis': axis}
+    mmodel = 'M_windows'
+    if as_array and c.ndim == 2 and axis == 1:
+        mmodel = 'M_windows_frame_array_axis1'
+        if has_empty_anchor(n, p):
+            tags['finding'] = 'C13-window-array-axis1-empty'
+    desc = dict(desc, params=p, axis=axis, observed=shown)
     ctx.count(f'{stratum}:n={n}', f'{stratum}:yielded={min(yielded, 7)}', f'{stratum}:{"err" if st == "err" else "ok"}')
     clipped = p['start_shift'] < 0 or p['size'] > n or p['label_shift'] != 0 or p['size_increment'] != 0
-    return Case(stratum, desc,
-                m=f'wres_eqb (M_windows {rows_lit(rows)} {wparams_lit(p)}) {obs}',
-                s=f'wres_eqb (S_windows {rows_lit(rows)} {wparams_lit(p)}) {obs}',
-                tags={'api': 'iter_window_items', 'ndim': c.ndim, 'axis': axis}, nontrivial=yielded >= 1 and clipped,
+    return Case(stratum, desc, m=mk(mmodel), s=mk('S_windows'), tags=tags, nontrivial=yielded >= 1 and clipped,
                 key=f'{stratum}|{n}|{axis}|{sorted(p.items())}|{desc.get("layout")}|{desc.get("labels")}')
 
 
@@ -988,6 +1081,29 @@ def window_cases(ctx):
     for n, p in ctx.rng.sample(grid, min(len(grid), ctx.n(100, 1500))):
         yield window_case(ctx, series[n], 0, p, 'api:series.iter_window_array_items',
                           {'call': 'sf.Series(range(n)*10, index=a,b,c..).iter_window_array_items(**params)', 'n': n}, as_array=True)
+    # the values-only forms iterated directly: the sequence of windows = map snd of the items
+    both = grid + wide
+    lab = [g for g in both if g[1]['label_shift'] != 0]
+    for as_array in (False, True):
+        name = 'api:series.iter_window_array[values]' if as_array else 'api:series.iter_window[values]'
+        for n, p in ctx.rng.sample(lab, min(len(lab), ctx.n(90, 1500))) + ctx.rng.sample(both, min(len(both), ctx.n(40, 500))):
+            yield window_case(ctx, wseries[n], 0, p, name,
+                              {'call': f'list(sf.Series(range(n)*10, index=a,b,c..).{"iter_window_array" if as_array else "iter_window"}(**params))', 'n': n},
+                              as_array=as_array, values_only=True)
+    # frames of distinct int cells: array windows (items and values-only), both axes
+    for _ in range(ctx.n(50, 500)):
+        nrows, ncols = ctx.rng.randint(1, 6), ctx.rng.randint(1, 4)
+        arrays = [np.array([10 * i + j for i in range(nrows)], dtype=np.int64) for j in range(ncols)]
+        layout = ctx.rng.choice(list(zoo.layouts_for([a.dtype for a in arrays])))
+        f = zoo.frame_from_columns(arrays, layout, index=sf.Index([f'r{i}' for i in range(nrows)]), columns=sf.Index([f'c{j}' for j in range(ncols)]))
+        axis = ctx.rng.choice([0, 1])
+        p = dict(size=ctx.rng.randint(1, 4), step=ctx.rng.choice([0, 1, 1, 2, 3]), window_sized=ctx.rng.random() < 0.5,
+                 label_shift=ctx.rng.choice([-3, -2, -1, 1, 2, 3, 0]), start_shift=ctx.rng.choice([0, 0, -1, 1, -2, 2]),
+                 size_increment=ctx.rng.choice([0, 0, 1, -1]))
+        vo = ctx.rng.random() < 0.7
+        yield window_case(ctx, f, axis, p, 'api:frame.iter_window_array[values]' if vo else 'api:frame.iter_window_array_items',
+                          {'call': f'frame of cells 10*i+j, layout {zoo.layout_str(layout)}: {"list(f.iter_window_array(axis=axis, **params))" if vo else "f.iter_window_array_items(axis=axis, **params)"}',
+                           'shape': [nrows, ncols], 'layout': zoo.layout_str(layout)}, as_array=True, values_only=vo)
     # frames, both axes, hierarchical labels, all layouts of small frames
     for _ in range(ctx.n(60, 600)):
         family = ctx.rng.choice(['N', 'M', 'I'])
@@ -996,11 +1112,13 @@ def window_cases(ctx):
         spec = make_frame(ctx, family, nrows, ncols, hier_index=hier, hier_columns=False)
         axis = ctx.rng.choice([0, 1])
         p = dict(size=ctx.rng.randint(1, 4), step=ctx.rng.choice([0, 1, 1, 2, 3]), window_sized=ctx.rng.random() < 0.6,
-                 label_shift=ctx.rng.choice([0, 0, -1, 1, -2, 2]), start_shift=ctx.rng.choice([0, 0, -1, 1, -2, 2]),
+                 label_shift=ctx.rng.choice([0, -1, 1, -2, 2, 3]), start_shift=ctx.rng.choice([0, 0, -1, 1, -2, 2]),
                  size_increment=ctx.rng.choice([0, 0, 1, -1]))
         for layout in pick_layouts(ctx, spec, 2):
             f = build(spec, layout)
             yield window_case(ctx, f, axis, p, 'api:frame.iter_window_items', dict(spec_desc(spec, layout), call='frame.iter_window_items(axis=axis, **params)'))
+            yield window_case(ctx, f, axis, p, 'api:frame.iter_window[values]', dict(spec_desc(spec, layout), call='list(frame.iter_window(axis=axis, **params))'),
+                              values_only=True)
     for _ in range(ctx.n(15, 150)):
         n = ctx.rng.randint(1, 7)
         labels = hier_labels(ctx.rng, n)
@@ -1020,7 +1138,7 @@ def malformed_cases(ctx):
         obs = res_lit(st, out if st == 'err' else [], groups_lit)
         ctx.count('malformed:group')
         yield Case('malformed:frame.iter_group_items', {'call': f'f.iter_group_items({key!r}, axis={axis})', 'observed': out if st == 'err' else 'no error'},
-                   m=f'gres_eqb {obs} (M_frame_group_api {lit.z(axis)} {keylit} false true true false {rows_lit(rows)})',
+                   m=f'gres_eqb {obs} (M_frame_group_api {lit.z(axis)} {keylit} false true true false false {rows_lit(rows)})',
                    tags={'api': 'frame.iter_group_items', 'malformed': True}, nontrivial=False)
     s = sf.Series([10, 20, 30], index=('a', 'b', 'c'))
     for size, step in ((0, 1), (-1, 1), (2, -1), (0, -1)):
@@ -1042,6 +1160,17 @@ def corpus_cases(ctx):
             'index_labels': ['r0', 'r1', 'r2'], 'col_labels': ['c0', 'c1'], 'index': sf.Index(['r0', 'r1', 'r2']), 'columns': sf.Index(['c0', 'c1']),
             'layouts': list(zoo.layouts_for([a.dtype for a in arrays])), 'mode': 'dup', 'hier_index': False, 'hier_columns': False}
     yield frame_group_case(fixed, spec, spec['layouts'][0], 0, 'element', [0], 'corpus:str-fallback')
+    # 1b. FrameGO receiver, element key on axis 1, sort path
+    arrays = [make_array('int', [1, 2]), make_array('int', [1, 3]), make_array('int', [2, 2])]
+    specg = dict(spec, kinds=['int'] * 3, cols=[[1, 2], [1, 3], [2, 2]], arrays=arrays, dtypes=[a.dtype for a in arrays], index_labels=['r0', 'r1'],
+                 index=sf.Index(['r0', 'r1']), col_labels=['c0', 'c1', 'c2'], columns=sf.Index(['c0', 'c1', 'c2']),
+                 layouts=list(zoo.layouts_for([a.dtype for a in arrays])))
+    yield frame_group_case(fixed, specg, specg['layouts'][0], 1, 'element', [0], 'corpus:framego-axis1-sort-path', go=True)
+    # 1c. array windows over columns with an anchor that selects no column
+    fw = sf.Frame.from_dict({'c0': [1, 2], 'c1': [3, 4]}, index=('r0', 'r1'))
+    yield window_case(fixed, fw, 1, dict(size=1, step=1, window_sized=True, label_shift=0, start_shift=-1, size_increment=0),
+                      'corpus:window-array-axis1-empty', {'call': "sf.Frame.from_dict({'c0':[1,2],'c1':[3,4]}).iter_window_array_items(size=1, start_shift=-1, axis=1)"},
+                      as_array=True)
     # 2. one-row list key on axis 1 (raised ValueError before cf0ec12)
     arrays = [make_array('int', [1, 2]), make_array('int', [1, 3])]
     spec2 = dict(spec, kinds=['int', 'int'], cols=[[1, 2], [1, 3]], arrays=arrays, dtypes=[a.dtype for a in arrays], index_labels=['r0', 'r1'],
@@ -1074,6 +1203,7 @@ def cases(ctx):
     yield from corpus_cases(ctx)
     yield from series_group_cases(ctx)
     yield from frame_group_cases(ctx)
+    yield from go_group_cases(ctx)
     yield from long_group_cases(ctx)
     yield from labels_cases(ctx)
     yield from kernel_cases(ctx)
